@@ -3,10 +3,10 @@ package dxbc
 import (
 	"context"
 	"fmt"
+	"math/rand"
 	"os"
 	"os/exec"
 	"path/filepath"
-	"math/rand"
 	"strings"
 	"sync"
 	"testing"
